@@ -36,11 +36,45 @@ def alias_corpus(chk):
                        "aliasing program %s accepted: two qubit declarations share a simulator qubit" % os.path.basename(f))
     return len(files)
 
+
+def alias_attempts(chk):
+    """every route x position by which a second declaration could come to denote a foreign qubit (checks/aliasgen.py)"""
+    from checks import aliasgen as ag, langcommon as lc
+    ps = ag.programs()
+    opts = "draws=0.5,0.5,0.5,0.5"
+    res = lc.run_impl([p[2] for p in ps], opts=opts)
+    ctl = lc.run_impl([p[3] for p in ps], opts=opts)
+    kinds = {}
+    for (name, variant, src, csrc), r, c in zip(ps, res, ctl):
+        rejected = r.get("status") == "error" and r.get("cat") in ("Semantic", "Runtime")
+        kinds[r.get("cat") if rejected else r.get("status")] = kinds.get(r.get("cat") if rejected else r.get("status"), 0) + 1
+        if not (rejected or (r.get("status") == "ok" and r.get("stdout") == "0\n")):
+            chk.report("c03-alias-%s" % variant, {"route": name, "variant": variant, "source": src,
+                                                 "impl": {k: v for k, v in r.items() if k in ("status", "cat", "msg", "stdout", "signal")},
+                                                 "expected": "rejected, or prints 0 (the victim `a` is never touched)",
+                                                 "how": "bloch <file>"},
+                       "route %s (%s): a second declaration denotes the victim's simulator qubit: measure a printed %r" % (name, variant, r.get("stdout")))
+        if not (c.get("status") == "ok" and c.get("stdout") == "0\n"):
+            chk.report("c03-alias-control", {"route": name, "variant": variant, "source": csrc,
+                                             "impl": {k: v for k, v in c.items() if k in ("status", "cat", "msg", "stdout", "signal")},
+                                             "expected": "the same program without the aliasing statement is accepted and prints 0"},
+                       "control of route %s (%s) does not run to 0: %s %s" % (name, variant, c.get("status"), (c.get("msg") or c.get("stdout") or "")[:120]))
+    lt = ag.lifetime_programs()
+    lres = lc.run_impl([s_ for _, s_ in lt], opts="draws=0.5,0.5,0.5,0.5,0.5,0.5")
+    for (name, src), r in zip(lt, lres):
+        out = (r.get("stdout") or "").strip()
+        if not (r.get("status") == "ok" and out and set(out) == {"0"}):
+            chk.report("c03-handle-lifetime", {"route": name, "source": src, "impl": {k: v for k, v in r.items() if k in ("status", "cat", "msg", "stdout", "signal")},
+                                               "expected": "a declaration made while the handle is in use gets its own qubit: every printed bit is 0"},
+                       "route %s: a handle read from an object that died was recycled under a new declaration: printed %r" % (name, out))
+    return len(ps), len(lt), kinds
+
 def run(chk):
     quick = chk.tier == "quick"
     chk.proofs()
     rng = chk.rng
     ncorp = alias_corpus(chk)
+    natt, nlife, att_kinds = alias_attempts(chk)
     progs = []
     for _ in range(200 if quick else 2500):
         ops, draws = sc.gen_reuse_prog(rng, n_ops=rng.randint(8, 18))
@@ -56,8 +90,13 @@ def run(chk):
     res, ndis = sc.check_progs(chk, progs, "c03", rng, aspects=("amps", "nq", "free-list", "sim-flags", "ev-flags", "last-measurement"),
                                extra=sc.impl_state_sane)
     reused = sum(1 for r in res if any(o[0] == 'K' for o in r["prog"].ops[:-1]))
-    chk.cov.update({"traces_validated_against_impl": len(progs), "alias_corpus_programs": ncorp, "histories_with_release": reused, "disagreements": ndis,
+    chk.cov.update({"traces_validated_against_impl": len(progs), "alias_corpus_programs": ncorp, "alias_attempt_programs": natt, "alias_attempt_outcomes": att_kinds,
+                    "handle_lifetime_programs": nlife, "histories_with_release": reused, "disagreements": ndis,
                     "rule": "random histories of declare (variable / array / object with qubit fields) / gate / cx / measure / reset / destroy-object "
                             "/ re-declare (index recycling), plus near-0/near-1 probabilities and reset of a certainly-1 qubit; after each run the "
                             "implementation's vector must have 2^n finite entries and norm 1 (1e-9) and must equal the model's state, free list, "
-                            "flag and last-measurement vectors; corpus: every way of binding one qubit to two declarations must be a Semantic error"})
+                            "flag and last-measurement vectors; corpus: every way of binding one qubit to two declarations must be a Semantic error; "
+                            "generated aliasing attempts (local / array element / whole register / field by bare name, this. and from outside / constructor / "
+                            "default constructor / class type parameter) x (statement, expression statement, for-step, nested block) x (use the alias, "
+                            "recycle after the holder dies): rejected or `measure a` prints 0, and the control without the aliasing statement runs to 0; "
+                            "handles read from temporaries (f(make().q) ...) are not recycled while in use"})
